@@ -365,9 +365,9 @@ def _instantiate(h, call, caller, caller_self, form, target=None, shared=frozens
         pairs = []
         if isinstance(target, ast.Name) and isinstance(R, ast.Name):
             pairs = [(target, R, None)]
-        elif isinstance(target, (ast.Tuple, ast.List)) and isinstance(R, ast.Tuple) and len(target.elts) == len(R.elts) \
-                and not any(isinstance(x, ast.Starred) for x in list(target.elts) + list(R.elts)):
-            pairs = [(t_, r_, i) for i, (t_, r_) in enumerate(zip(target.elts, R.elts))]
+        elif isinstance(target, (ast.Tuple, ast.List)) and _tuple_elts(R) is not None and len(target.elts) == len(_tuple_elts(R)) \
+                and not any(isinstance(x, ast.Starred) for x in list(target.elts) + list(_tuple_elts(R))):
+            pairs = [(t_, r_, i) for i, (t_, r_) in enumerate(zip(target.elts, _tuple_elts(R)))]
         arg_names = {x.id for a in m.values() for x in ast.walk(a) if isinstance(x, ast.Name)}
         h_names = {x.id for x in ast.walk(h.node) if isinstance(x, ast.Name)} | set(h.params) | set(h.kwonly)
         mapped = []
@@ -441,7 +441,7 @@ def _instantiate(h, call, caller, caller_self, form, target=None, shared=frozens
                 return [ast.copy_location(ast.Assign(targets=[copy.deepcopy(target)], value=last.value, lineno=last.lineno), last)]
             if keep_positions and keep_positions != [None]:
                 tg = ast.Tuple(elts=[copy.deepcopy(target.elts[i]) for i in keep_positions], ctx=ast.Store())
-                vl = ast.Tuple(elts=[last.value.elts[i] for i in keep_positions], ctx=ast.Load())
+                vl = ast.Tuple(elts=[_tuple_elts(last.value)[i] for i in keep_positions], ctx=ast.Load())
                 if len(keep_positions) == 1:
                     tg, vl = tg.elts[0], vl.elts[0]
                 return [ast.copy_location(ast.Assign(targets=[tg], value=vl, lineno=last.lineno), last)]
@@ -459,6 +459,20 @@ def _instantiate(h, call, caller, caller_self, form, target=None, shared=frozens
     for st in out:
         ast.fix_missing_locations(st)
     return out
+
+
+_HOISTED = []       # (function node, temporary) pairs introduced by _hoist during one normalisation
+_NAMEDTUPLES = {}   # class name -> number of fields, for the NamedTuple classes of the package being normalised
+
+
+def _tuple_elts(v):
+    """The positions of a tuple display, or of a NamedTuple of the package constructed by position (unpacking it is unpacking
+    the arguments); None for anything else."""
+    if isinstance(v, ast.Tuple):
+        return v.elts
+    if isinstance(v, ast.Call) and isinstance(v.func, ast.Name) and _NAMEDTUPLES.get(v.func.id) == len(v.args) and not v.keywords:
+        return v.args
+    return None
 
 
 def _pure(e):
@@ -527,6 +541,7 @@ def _hoist(call, parent, f, hname):
     new = ast.copy_location(ast.Assign(targets=[ast.Name(id=tmp, ctx=ast.Store())], value=call, lineno=S.lineno), S)
     ast.fix_missing_locations(new)
     lst.insert(lst.index(S), new)
+    _HOISTED.append((f, tmp))
     return True
 
 
@@ -553,6 +568,17 @@ def _class_family(trees):
 def normalise(trees, protected):
     """trees: module name -> ast.Module (modified in place).  Returns the list of dissolved helpers ('module:qualname')."""
     done = []
+    del _HOISTED[:]
+    _NAMEDTUPLES.clear()
+    seen_names = {}
+    for t in trees.values():
+        for n in ast.walk(t):
+            if isinstance(n, ast.ClassDef):
+                seen_names[n.name] = seen_names.get(n.name, 0) + 1
+                if len(n.bases) == 1 and ((isinstance(n.bases[0], ast.Name) and n.bases[0].id == "NamedTuple") or (isinstance(n.bases[0], ast.Attribute) and n.bases[0].attr == "NamedTuple")):
+                    _NAMEDTUPLES[n.name] = len([st for st in n.body if isinstance(st, ast.AnnAssign)])
+    for k_ in [k_ for k_, c_ in seen_names.items() if c_ > 1]:
+        _NAMEDTUPLES.pop(k_, None)
     for mn in sorted(trees):
         k = _lower_first_match(trees[mn])
         if k:
@@ -568,6 +594,18 @@ def normalise(trees, protected):
     if done:
         for mn in sorted(trees):
             _fold_dead(trees[mn])
+    # a temporary that ended up as a plain copy of a caller variable (`tmp = blocks`) reads as that variable
+    temps = {tmp_ for _, tmp_ in _HOISTED}
+    if temps:
+        for mn in sorted(trees):
+            for f_ in [n for n in ast.walk(trees[mn]) if isinstance(n, ast.FunctionDef)]:
+                mine = sorted({n.id for n in ast.walk(f_) if isinstance(n, ast.Name) and n.id in temps and isinstance(n.ctx, ast.Store)})
+                if mine:
+                    try:
+                        _propagate_copies(f_, mine)
+                    except Exception:
+                        pass
+    del _HOISTED[:]
     return done
 
 
@@ -853,11 +891,16 @@ def _class_shape(k):
         if isinstance(st, ast.Assign) and len(st.targets) == 1 and isinstance(st.targets[0], ast.Name) and st.targets[0].id == "__slots__":
             continue
         if isinstance(st, ast.AnnAssign) and isinstance(st.target, ast.Name) and dc:
-            if st.value is not None and not isinstance(st.value, ast.Constant):
+            v = st.value
+            if isinstance(v, ast.Call) and isinstance(v.func, ast.Name) and v.func.id == "field" and not v.args and len(v.keywords) == 1 and v.keywords[0].arg == "default_factory" \
+                    and isinstance(v.keywords[0].value, ast.Name) and v.keywords[0].value.id in ("list", "dict", "set", "bytearray"):
+                # field(default_factory=list): a fresh empty container per object
+                v = ast.copy_location(ast.Call(func=ast.Name(id=v.keywords[0].value.id, ctx=ast.Load()), args=[], keywords=[]), v)
+            elif v is not None and not isinstance(v, ast.Constant):
                 return None
             fields.append(st.target.id)
-            if st.value is not None:
-                defaults[st.target.id] = st.value
+            if v is not None:
+                defaults[st.target.id] = v
             continue
         if isinstance(st, ast.FunctionDef) and not st.decorator_list and st.args.args:
             methods[st.name] = st
